@@ -23,6 +23,7 @@ def run(model: Model, rep: Report) -> None:
         "engages the body-scan fallback, and the object-stream member index is bound to the xref entry. Equality of answers across physical "
         "forms and buffer sizes is not decided."
     )
+    _absence_signal(model, rep)
     # ---------------------------------------------------------------- R1
     r1 = rep.rule("C02-R1", "ORDER", "sections are collected newest first: append dominates the descent; XRefStm is followed before Prev", 4)
     rx = model.func(DOC + ".read_xref_from")
@@ -324,3 +325,32 @@ def _classic_entries(model: Model, rep: Report) -> None:
     go = model.func(DOC + "._get_objects")
     s3 = _np(go.node)
     r10.check("n=castint,stream['N']" in s3 and "parser=PDFStreamParserstream.get_data" in s3 and "parser.set_documentself" in s3 and "_,obj=parser.nextobjectobjs.appendobj" in s3 and s3.endswith("returnobjs,n"), site(go), go.qualname, "an object stream is tokenised to its end into one flat list (header pairs, then the objects) with the document attached for references", why="changed")
+
+
+def _absence_signal(model: Model, rep: Report) -> None:
+    r11 = rep.rule("C02-R11", "EXC", "a section that does not define an object (or lists it as free) says so with a KeyError, the one signal on which getobj goes on to the next older section", 3)
+    go = model.func(DOC + ".getobj")
+    hs = [h for t in walk_no_nested(go.node) if isinstance(t, ast.Try) for h in t.handlers if h.type is not None and unparse(h.type) == "KeyError" and any(isinstance(x, ast.Continue) for x in ast.walk(ast.Module(body=h.body, type_ignores=[])))]
+    r11.check(bool(hs), site(go), go.qualname, "getobj: `except KeyError: continue` around xref.get_pos", why="the fall-through to older sections changed")
+    for f in model.overrides(D + "PDFBaseXRef", "get_pos"):
+        if f.cls is not None and f.cls.qualname == D + "PDFBaseXRef":
+            continue
+        for n in walk_no_nested(f.node):
+            if isinstance(n, ast.Raise) and n.exc is not None:
+                cls = model.resolve_expr(f.module, n.exc.func if isinstance(n.exc, ast.Call) else n.exc, f.cls) or "?"
+                ok = model.is_subclass(cls, "KeyError") if (cls in model.classes or cls == "KeyError") else False
+                r11.check(ok, site(f, n), f.qualname, " ".join(unparse(n).split())[:100], why=f"raises {cls.split('.')[-1]}, which is not a KeyError: getobj stops at this section instead of consulting the older ones, so a free entry in a newer cross-reference stream hides the object's definition in an earlier revision")
+    r12 = rep.rule("C02-R12", "EXC", "classic table: a line that is neither a subsection header nor a three-field entry invalidates the table (PDFNoValidXRef, which engages the body scan) - it is not skipped", 2)
+    ld = model.func(D + "PDFXRef.load")
+    tests = [n for n in walk_no_nested(ld.node) if isinstance(n, ast.If) and isinstance(n.test, ast.Compare) and unparse(n.test.left).startswith("len(") and isinstance(n.test.ops[0], ast.NotEq)]
+    if len(tests) < 2:
+        raise AnchorMissing("PDFXRef.load: field-count tests not found")
+    from ..equiv import terminates
+
+    for t in tests:
+        last = t.body[-1] if t.body else None
+        cls = ""
+        if isinstance(last, ast.Raise) and last.exc is not None:
+            cls = model.resolve_expr(ld.module, last.exc.func if isinstance(last.exc, ast.Call) else last.exc, ld.cls) or "?"
+        ok = isinstance(last, ast.Raise) and cls in model.classes and model.is_subclass(cls, D + "PDFNoValidXRef")
+        r12.check(ok, site(ld, t), ld.qualname, f"`if {unparse(t.test)}:` ends in raise PDFNoValidXRef", why="a malformed line is skipped (or signalled otherwise): the damaged table is accepted as a shorter one and the objects it lost are never looked for in the body")
